@@ -1,0 +1,121 @@
+//! Verification hooks (only compiled with the `verif-hooks` cargo feature).
+//!
+//! `HashMap` is a drop-in replacement for `std::collections::HashMap` whose hasher can be
+//! steered by a checker: keys registered through [`set_hash_overrides`] on the current
+//! thread hash to the given values, every other key hashes exactly as in the standard
+//! library (a per-map `RandomState`). With no overrides registered behaviour is unchanged.
+
+use std::cell::RefCell;
+use std::collections::hash_map::{DefaultHasher, RandomState};
+use std::hash::{BuildHasher, Hash, Hasher};
+use std::iter::FromIterator;
+use std::ops::{Deref, DerefMut};
+
+thread_local! {
+    static OVERRIDES: RefCell<Vec<(Vec<u8>, u64)>> = RefCell::new(Vec::new());
+}
+
+/// Registers `(bytes fed to the hasher, hash value)` pairs for the current thread.
+/// A `usize` key feeds its native-endian bytes, a `String` key its bytes followed by 0xFF.
+pub fn set_hash_overrides(overrides: Vec<(Vec<u8>, u64)>) {
+    OVERRIDES.with(|o| *o.borrow_mut() = overrides);
+}
+
+#[derive(Clone, Default)]
+pub struct VerifState(RandomState);
+
+pub struct VerifHasher {
+    inner: DefaultHasher,
+    fed: Vec<u8>,
+}
+
+impl BuildHasher for VerifState {
+    type Hasher = VerifHasher;
+
+    fn build_hasher(&self) -> VerifHasher {
+        VerifHasher {
+            inner: self.0.build_hasher(),
+            fed: Vec::new(),
+        }
+    }
+}
+
+impl Hasher for VerifHasher {
+    fn write(&mut self, bytes: &[u8]) {
+        self.fed.extend_from_slice(bytes);
+        self.inner.write(bytes);
+    }
+
+    fn finish(&self) -> u64 {
+        let forced = OVERRIDES.with(|o| {
+            o.borrow()
+                .iter()
+                .find(|(key, _)| *key == self.fed)
+                .map(|(_, value)| *value)
+        });
+        forced.unwrap_or_else(|| self.inner.finish())
+    }
+}
+
+#[derive(Clone, Debug)]
+pub struct HashMap<K, V>(std::collections::HashMap<K, V, VerifState>);
+
+impl<K, V> HashMap<K, V> {
+    pub fn new() -> Self {
+        HashMap(std::collections::HashMap::default())
+    }
+}
+
+impl<K, V> Default for HashMap<K, V> {
+    fn default() -> Self {
+        Self::new()
+    }
+}
+
+impl<K, V> Deref for HashMap<K, V> {
+    type Target = std::collections::HashMap<K, V, VerifState>;
+
+    fn deref(&self) -> &Self::Target {
+        &self.0
+    }
+}
+
+impl<K, V> DerefMut for HashMap<K, V> {
+    fn deref_mut(&mut self) -> &mut Self::Target {
+        &mut self.0
+    }
+}
+
+impl<K: Eq + Hash, V> FromIterator<(K, V)> for HashMap<K, V> {
+    fn from_iter<I: IntoIterator<Item = (K, V)>>(iter: I) -> Self {
+        HashMap(iter.into_iter().collect())
+    }
+}
+
+impl<K, V> IntoIterator for HashMap<K, V> {
+    type Item = (K, V);
+    type IntoIter = std::collections::hash_map::IntoIter<K, V>;
+
+    fn into_iter(self) -> Self::IntoIter {
+        self.0.into_iter()
+    }
+}
+
+impl<'a, K, V> IntoIterator for &'a HashMap<K, V> {
+    type Item = (&'a K, &'a V);
+    type IntoIter = std::collections::hash_map::Iter<'a, K, V>;
+
+    fn into_iter(self) -> Self::IntoIter {
+        self.0.iter()
+    }
+}
+
+/// Iteration order of the four annotation maps of a bin archive, as the archive's own
+/// code would see it.
+#[derive(Debug, Clone, PartialEq, Eq)]
+pub struct BinArchiveIterationOrders {
+    pub text: Vec<usize>,
+    pub pointers: Vec<usize>,
+    pub labels: Vec<usize>,
+    pub cstrings: Vec<String>,
+}
